@@ -93,7 +93,9 @@ func hintReaderSync(reader *hintFileReader) bool {
 //@   ints math
 //@   unreachable_ok io.ReadFull returns a short count only together with an error: the "readn < size" returns are dead
 //@   requires hintReaderSync(reader) && 0 <= reader.offset && int(reader.offset) <= fileSize(reader.fd)
-//@   modifies reader.offset, elems(reader.buf), ghostReader(reader.rbuf), ghostFail()
+//@   modifies ghostHintCount, reader.offset, elems(reader.buf), ghostReader(reader.rbuf), ghostFail()
+//@   ensures [assumed] item != nil && err == nil ==> ghostHintCount == old(ghostHintCount)+1      // ghost counter of the restart replay (verif_contracts_restart.go)
+//@   ensures [assumed] !(item != nil && err == nil) ==> ghostHintCount == old(ghostHintCount)
 //@   ensures old(reader.offset) >= reader.indexOffset ==> item == nil && err == nil && reader.offset == old(reader.offset)
 //@   ensures item != nil && err == nil ==> fresh(item) && reader.offset == old(reader.offset)+23+int64(len(item.Key)) && hintReaderSync(reader)
 //@   ensures item != nil && err == nil ==> len(item.Key) == int(fileByte(reader.fd, int(old(reader.offset))+22)) && int(old(reader.offset))+23+len(item.Key) <= fileSize(reader.fd)
@@ -116,6 +118,7 @@ func hintReaderSync(reader *hintFileReader) bool {
 //@   modifies reader.fd, reader.rbuf, reader.offset, reader.size, reader.indexOffset, reader.numKey, reader.datasize, elems(reader.buf), ghostHandles(), ghostFail()
 //@   ensures err == nil ==> hintReaderSync(reader) && fresh(reader.fd) && fresh(reader.rbuf) && reader.offset == 16 && int(reader.size) == fileSize(reader.fd) && 16 <= fileSize(reader.fd)
 //@   ensures err == nil ==> fileSize(reader.fd) == pathFileSize(reader.path)
+//@   ensures pathFileSize(reader.path) >= 16 ==> err == nil      // a file that has a header opens
 //@   ensures err == nil ==> reader.numKey == int(fileLE32(reader.fd, 8)) && reader.datasize == fileLE32(reader.fd, 12)
 //@   ensures err == nil && fileLE64(reader.fd, 0) != 0 ==> reader.indexOffset == int64(fileLE64(reader.fd, 0))
 //@   ensures err == nil && fileLE64(reader.fd, 0) == 0 ==> reader.indexOffset == reader.size
